@@ -547,8 +547,8 @@ def run(ctx, n_override=None):
                 '--empty) x journals of 1-120 postings dated over 2019-2025; `ledger period` output and `reg --period` '
                 'rows compared with the model; non-trivial = at least two intervals reported; distinct by expression, '
                 'journal and options')
-    n_reg = n_override or ctx.scale(1800, 30000)
-    n_period = ctx.scale(500, 6000)
+    n_reg = n_override or ctx.scale(1800, 20000)
+    n_period = ctx.scale(500, 5000)
     n_j = ctx.scale(30, 200)
     exhaustive = ctx.tier == 'thorough'
     journals = []
